@@ -105,6 +105,17 @@ CHECKS = {
         "as_flat_list and per-task metrics.",
         "Trusted: the reference statistics (40 lines). Only the in-memory store; the Elasticsearch-backed store is out of reach offline.",
     ),
+    "C19": (
+        "exploration",
+        "bounded-exhaustive generation of response texts from a JSON grammar (adversarial strings, key orders, escaping and whitespace "
+        "styles) through the real selective parser, bulk accounting, cursor extractors and Query runner, against json.loads",
+        "DESIGN.md §4 C19",
+        "Bulk responses (0..3 items x status x _shards x error form x 14 adversarial reason strings, consistent and shard-failure-only "
+        "errors flags), search/scroll pages (hits.total forms, 0..3 hits, 10 sort arrays, fields after sort), composite aggregations, each "
+        "in every rotation/reversal of top-level keys and 4 serialisations; multi-page scripts through the real Query runner "
+        "(paginated-search, scroll-search). Extracted values must equal those of a full parse. 4 recorded findings (known_findings.json).",
+        "Trusted: json.loads, the generators. Inputs exhibiting a recorded finding's feature cannot reveal a second defect on the same input.",
+    ),
 }
 
 NOT_YET = {}
